@@ -9,7 +9,7 @@ import sys
 import time
 import traceback
 
-sys.path.insert(0, "/verif/tools")
+sys.path.insert(0, os.path.dirname(os.path.abspath(__file__)))
 import common  # noqa: E402
 
 
@@ -29,7 +29,7 @@ def setup() -> int:
         # a file of a property that is not claimed (work in progress) must not block the others:
         # the build is acceptable iff every claimed property's Props/Inst dependencies compiled
         import json
-        claimed = json.load(open("/verif/tools/claimed.json"))
+        claimed = json.load(open(common.VERIF / "tools" / "claimed.json"))
         missing = []
         for pid in claimed:
             d = common.COQ / pid
@@ -55,8 +55,8 @@ def main() -> int:
         rc = 0
         for i in range(1, 21):
             pid = f"C{i:02d}"
-            if os.path.exists(f"/verif/tools/props/{pid.lower()}.py"):
-                r, _ = common.sh(f"/verif/check {pid} --tier {a.tier}", timeout=7200)
+            if os.path.exists(common.VERIF / "tools" / "props" / f"{pid.lower()}.py"):
+                r, _ = common.sh(f"{common.VERIF}/check {pid} --tier {a.tier}", timeout=7200)
                 print(f"== {pid} exit {r}")
                 print(_[-1500:])
                 rc |= r
